@@ -30,7 +30,10 @@ static void check(long id, const Mat& M, const std::vector<double>& expected) {
   int d = M.d;
   std::vector<double> c = comps_from_matrix(M);
   double scale = std::max(1.0, maxabs(M) * d);
-  for (int order = 1; order >= 0; order--) {
+  // ordered, unordered, ordered again on the same operator: the answer to one call must not depend on the previous one
+  static const int ORDERS[3] = {1, 0, 1};
+  for (int oi = 0; oi < 3; oi++) {
+    int order = ORDERS[oi];
     ncalls++;
     try {
       SU_vector v(d);
